@@ -38,8 +38,7 @@ func (x *Exec) indexByte(bs []*Term, c *Term) Value {
 }
 
 func (x *Exec) freshInput(name string, w int) *Term {
-	t := FreshBV(name, w)
-	registerSym(t)
+	t := x.FreshBV(name, w)
 	x.inputs = append(x.inputs, t)
 	x.trace = append(x.trace, traceItem{t: t})
 	return t
@@ -80,8 +79,7 @@ func (x *Exec) intrinsic(name string, fn *ssa.Function, args []Value) (Value, bo
 		t := x.freshInput("f", 1)
 		return bvcmp("=", t, BV(1, 1)), true
 	case "verifFloat64":
-		t := FreshFP("x")
-		registerSym(t)
+		t := x.FreshFP("x")
 		x.inputs = append(x.inputs, t)
 		x.trace = append(x.trace, traceItem{t: t})
 		return t, true
